@@ -432,6 +432,11 @@ def gen(ctx):
         yield 'text', dict(family=fam, text=text, max_batch=None)
     for fam, text in docs.numbers(False):
         yield 'text', dict(family=fam, text=text, max_batch=None)
+    # far beyond what the decoder can nest: whatever happens, it happens on both halves alike
+    for depth in (2000, 100000):
+        for text in ('[' * depth + ']' * depth, '{"a":' * depth + '1' + '}' * depth,
+                     '{"jsonrpc": "2.0", "id": 1, "method": "echo", "params": [' + '[' * depth + ']' * depth + ']}'):
+            yield 'text', dict(family='nesting-beyond-the-decoder', text=text, max_batch=None)
     # middleware configurations
     stacks = [[]] + [list(s) for n in (1, 2, 3) for s in itertools.product(c12.MW_KINDS, repeat=n)]
     names = list(c12.DOCS)
